@@ -122,6 +122,59 @@ func (r Report) Flatten() (fields map[string]string, odd []string) {
 	return
 }
 
+// Scribble overwrites every exported string field reachable from the report (what a client does that
+// localises, decorates or redacts a report it received).  Returns the number of fields written.
+func (r Report) Scribble() (n int) {
+	defer func() { recover() }()
+	var walk func(v reflect.Value)
+	walk = func(v reflect.Value) {
+		if v.Kind() == reflect.Ptr {
+			if v.IsNil() {
+				return
+			}
+			v = v.Elem()
+		}
+		t := v.Type()
+		for i := 0; i < t.NumField(); i++ {
+			f := t.Field(i)
+			if !f.IsExported() {
+				continue
+			}
+			fv := v.Field(i)
+			switch {
+			case f.Anonymous && (fv.Kind() == reflect.Ptr || fv.Kind() == reflect.Struct):
+				walk(fv)
+			case fv.Kind() == reflect.String && fv.CanSet():
+				fv.SetString("redacted-by-client")
+				n++
+			}
+		}
+	}
+	walk(reflect.ValueOf(r.Ptr()))
+	return n
+}
+
+// NewReportLangs builds the report with one language option per tag, in order (the last one is the
+// language requested).
+func NewReportLangs(o Obj, tags ...language.Tag) (rep Report, pan *Panic) {
+	defer catch(&pan)
+	var opts []report.ReportOptionsFunc
+	for _, t := range tags {
+		opts = append(opts, report.WithOptionsLanguage(t))
+	}
+	switch o.Kind {
+	case K3B:
+		rep = Report{Level: 0, B: report.NewBase(o.B3, opts...)}
+	case K3T:
+		rep = Report{Level: 1, T: report.NewTemporal(o.T3, opts...)}
+	case K3E:
+		rep = Report{Level: 2, E: report.NewEnvironmental(o.E3, opts...)}
+	default:
+		panic("NewReportLangs: not a v3 object")
+	}
+	return
+}
+
 // ExportWithString / ExportWith call the template export and read the result.
 func (r Report) ExportWithString(tmpl string) (out string, outNil bool, err error, pan *Panic) {
 	defer catch(&pan)
